@@ -242,6 +242,13 @@ def _compiled(case, w, ref, site, out, res1):
         out['harness'] = 'HARNESS-MISMATCH: compiled and simulated mode counts differ although both satisfy the oracle'
 
 
+def pin(case):
+    from abx_sim.analysis import power_spectrum as ps
+    from e1_threads import harness as H
+    w = _weights(case)
+    return H.pin_with(lambda c: H.run(lambda: _call(ps, c, w, c['nthread']), c['sched']), case)
+
+
 def shrink(case):
     c = dict(case)
     if case['n'] > 1:
